@@ -13,6 +13,7 @@ import (
 	"encoding"
 	stdjson "encoding/json"
 	"fmt"
+	jsonv1 "github.com/go-json-experiment/json/v1"
 	"io"
 	"reflect"
 	"sort"
@@ -59,6 +60,10 @@ var mOptSets = []*optSet{
 		Want: map[string]any{"AllowInvalidUTF8": true, "FormatNilSliceAsNull": true, "FormatNilMapAsNull": true}},
 	{Name: "spaces", Enc: []json.Options{jsontext.SpaceAfterComma(true), jsontext.SpaceAfterColon(true)}, Arsh: []json.Options{json.Deterministic(false)},
 		Want: map[string]any{"SpaceAfterComma": true, "SpaceAfterColon": true, "Deterministic": false}},
+	// the v2 defaults spelled out: present-but-false legacy flags must behave like absent ones
+	{Name: "explicit-v2", Arsh: []json.Options{json.DefaultOptionsV2()}},
+	{Name: "legacy-calls-off", Arsh: []json.Options{jsonv1.CallMethodsWithLegacySemantics(false)}},
+	{Name: "v1-then-v2", Arsh: []json.Options{json.JoinOptions(jsonv1.DefaultOptionsV1(), json.DefaultOptionsV2())}},
 }
 
 var uOptSets = []*optSet{
@@ -68,6 +73,9 @@ var uOptSets = []*optSet{
 		Want: map[string]any{"AllowDuplicateNames": true, "MatchCaseInsensitiveNames": true}},
 	{Name: "utf8", Enc: []json.Options{jsontext.AllowInvalidUTF8(true)}, Arsh: []json.Options{json.RejectUnknownMembers(false)},
 		Want: map[string]any{"AllowInvalidUTF8": true, "RejectUnknownMembers": false}},
+	{Name: "explicit-v2", Arsh: []json.Options{json.DefaultOptionsV2()}},
+	{Name: "legacy-calls-off", Arsh: []json.Options{jsonv1.CallMethodsWithLegacySemantics(false)}},
+	{Name: "v1-then-v2", Arsh: []json.Options{jsonv1.DefaultOptionsV1(), json.DefaultOptionsV2()}},
 }
 
 var mAPIs = []string{"Marshal", "MarshalWrite", "MarshalWriteW", "MarshalEncode", "MarshalEncodeIn", "MarshalEncodeObj"}
